@@ -280,7 +280,17 @@ func (m *FieldMap) Remove(tag Tag) {
 	m.rwLock.Lock()
 	defer m.rwLock.Unlock()
 
+	if _, ok := m.tagLookup[tag]; !ok {
+		return
+	}
+
 	delete(m.tagLookup, tag)
+	for i, t := range m.tags {
+		if t == tag {
+			m.tags = append(m.tags[:i], m.tags[i+1:]...)
+			break
+		}
+	}
 }
 
 // Clear purges all fields from field map.
